@@ -255,6 +255,9 @@ func c19(c *core.Ctx, r *core.Report) {
 					if rl := core.RangeLoopOf(fn, b); rl != nil && idx == rl.Next && core.Norm(base) == core.Norm(rl.Slice) {
 						continue // range element
 					}
+					if sortComparatorIndex(fn, base, idx) {
+						continue // x[i] inside the index comparator handed to sort.Slice(x, ...): the sort keeps i in range
+					}
 					nExpr++
 					ord++
 					cons := fmt.Sprintf("index#%d@%s", ord, core.FnName(fn))
@@ -544,4 +547,70 @@ func countedMapFill(base, idx ssa.Value) bool {
 		}
 	}
 	return false
+}
+
+// sortComparatorIndex: fn is a function literal used only as the index comparator of sort.Slice / sort.SliceStable,
+// idx is one of its two parameters and base is the very slice being sorted (captured by the literal).
+func sortComparatorIndex(fn *ssa.Function, base, idx ssa.Value) bool {
+	p, ok := idx.(*ssa.Parameter)
+	if !ok || fn.Parent() == nil || len(fn.Params) != 2 || (p != fn.Params[0] && p != fn.Params[1]) {
+		return false
+	}
+	// the captured variable the base is read from
+	ld, ok := base.(*ssa.UnOp)
+	var fv *ssa.FreeVar
+	if ok && ld.Op == token.MUL {
+		fv, _ = ld.X.(*ssa.FreeVar)
+	} else {
+		fv, _ = base.(*ssa.FreeVar)
+	}
+	if fv == nil {
+		return false
+	}
+	fvIdx := -1
+	for i, x := range fn.FreeVars {
+		if x == fv {
+			fvIdx = i
+		}
+	}
+	used := false
+	for _, b := range fn.Parent().Blocks {
+		for _, in := range b.Instrs {
+			mc, isMC := in.(*ssa.MakeClosure)
+			if !isMC || mc.Fn != ssa.Value(fn) {
+				continue
+			}
+			if fvIdx < 0 || fvIdx >= len(mc.Bindings) || mc.Referrers() == nil {
+				return false
+			}
+			for _, rf := range *mc.Referrers() {
+				call, isCall := rf.(*ssa.Call)
+				if !isCall {
+					if _, isDbg := rf.(*ssa.DebugRef); isDbg {
+						continue
+					}
+					return false
+				}
+				if !core.IsExtCall(call.Common(), "sort.Slice") && !core.IsExtCall(call.Common(), "sort.SliceStable") {
+					return false
+				}
+				// the slice handed to the sort is the captured one
+				arg := core.Norm(call.Common().Args[0])
+				bound := mc.Bindings[fvIdx]
+				same := arg == core.Norm(bound)
+				if al, isAl := bound.(*ssa.Alloc); isAl {
+					if u, isU := call.Common().Args[0].(*ssa.MakeInterface); isU {
+						if l2, isL := u.X.(*ssa.UnOp); isL && l2.Op == token.MUL && l2.X == ssa.Value(al) {
+							same = true
+						}
+					}
+				}
+				if !same {
+					return false
+				}
+				used = true
+			}
+		}
+	}
+	return used
 }
